@@ -25,12 +25,20 @@ CHECKS = {
          "Every Pop/Peek result must be a member that no member precedes; the member multiset (full identity, distinguishable ties) must equal pushed+loaded minus popped; Values/iteration must be a permutation starting with the Peek element; a final drain must be non-decreasing. Histories include bulk pushes and FromJSON of arbitrary arrays. " + DEGENERATE, "4 C06"),
  "C07": ("exploration", "seeded history simulation with a counting comparator and structure walks of the exported tree fields",
          "Comparator calls of every Get/Put/Remove are compared with the statement's formula at the most favourable n; AVL/B-tree/red-black shape invariants are walked from exported fields (every step for n<=64, sampled above, always at the end) under sorted, reverse, zig-zag, sweep and churn clients up to n=1024 (quick) / 4096 (thorough). " + DEGENERATE, "4 C07"),
+ "C08": ("exploration", "seeded simulation of interleaved iterator clients vs cursor reference model (-1..n)",
+         "All 18 iterator types: after a seeded history, 1-3 iterator clients each owning a fresh iterator are interleaved over an unmodified container; the return value of every Next/Prev/Begin/End/First/Last/NextTo/PrevTo and Index/Key/Value at every in-range position are compared with a cursor model over the container's own Values()/Keys(); moves are biased to reversals at both sentinels; empty and single-element states are frequent. " + DEGENERATE, "4 C08 and appendix A.1"),
  "C09": ("exploration", "seeded history simulation vs insertion-order reference model",
          "Keys/Values/iterator/Each/ToJSON member order of LinkedHashMap and LinkedHashSet equal the reference 'order of insertion since last absent' after every step. " + DEGENERATE, "4 C09"),
  "C10": ("exploration", "seeded history simulation vs bijection reference model with eviction",
          "Get/GetKey consistency in both directions over the whole key and value tables, no shared value, Size=len(Keys)=len(Values) and equality with the eviction model after every step, value tables small enough to force every collision kind, coarsened key and value comparators. " + DEGENERATE, "4 C10"),
+ "C13": ("exploration", "seeded history simulation of two sets vs set-algebra reference model, independence probes by mutation",
+         "Pairs of sets of the same kind built by seeded histories (free, disjoint, nested, equal, one empty, either larger, same object as both operands); members of Intersection/Union/Difference are compared with the model, operands must be observably unchanged, then result, a and b are mutated in turn and the others must not move; TreeSet results must stay ascending under the operands' comparator after further Adds. " + DEGENERATE, "4 C13"),
+ "C14": ("exploration", "seeded history simulation; callback families; results wrapped as subjects and judged by the model oracles",
+         "Each call log equals the iterator sequence; Any/All/Find equal exists/for-all/first-match; Select/Map results are compared with 'insert in iteration order' on a reference model of the same kind and then mutated under the C01-C04/C09/C10 oracles (same discipline and comparator); receiver must be observably unchanged and independent of the result in both directions. " + DEGENERATE, "4 C14"),
  "C15": ("exploration", "seeded history simulation; lock-step differential of a cleared container against a fresh instance",
          "Empty/Size/len(Values)/len(Keys)/String-name agreement after every step on all 21 containers; Clear at a seeded point, then the same continuation is applied to the cleared container and to a freshly constructed one and all observers including ToJSON must agree after every step. " + DEGENERATE, "4 C15"),
+ "C16": ("exploration", "deterministic simulation with fault injection: the interfering caller (scribble on returned and passed slices)",
+         "The injected fault is a caller that keeps every slice it received from Values()/Keys() and every slice it passed to constructors and Add/Append/Prepend/Insert/Push/Remove, and at seeded moments overwrites them and appends within spare capacity; the container must stay equal to its model, earlier snapshots must not move under later mutations, GetSortedValues/GetSortedValuesFunc must return the sorted content and leave the container (including a heap's raw layout) unchanged. Sampled histories, all 21 kinds.", "4 C16"),
 }
 
 NOTE = ("Trusted: Go toolchain and encoding/json; the go/ast instrumentation of the scratch copy (selftest transparency); the reference models and "
